@@ -115,6 +115,14 @@ def gnn(a, ex):
     return len(m.labels_)
 
 
+def vote_kernel(a, ex):
+    from sknetwork.classification.vote import vote_update
+    labels = np.array(ex['labels_vec'], dtype=np.int32)
+    index = np.array(ex['index'], dtype=np.int32)
+    out = vote_update(a.indptr.astype(np.int32), a.indices.astype(np.int32), a.data.astype(np.float32), labels, index)
+    return Val([int(x) for x in np.asarray(out)])
+
+
 def iso(a, ex):
     return topology.are_isomorphic(a, a.copy())
 
@@ -148,6 +156,7 @@ ALGOS = {
     'ForceAtlas': fit_plain(embedding.ForceAtlas, 'embedding_'),
     'NNLinker': fit_plain(linkpred.NNLinker, 'links_'),
     'GNNClassifier': gnn,
+    'vote_update_kernel': vote_kernel,
     'get_core_decomposition': fn(topology.get_core_decomposition),
     'count_triangles': fn(topology.count_triangles),
     'count_triangles_parallel': fn(topology.count_triangles, parallelize=True),
